@@ -24,8 +24,9 @@ def r1(ctx):
     # character class - is part of what they accept)
     tables.string_table_eval(ctx, FIELD_FROM_STR, fs, "column", non_words=("frobnicate", "", "no such column"))
     tables.string_table_eval(ctx, FUNC_FROM_STR, fn, "function", non_words=("frobnicate", "", "no such function"))
-    tables.string_table(ctx, "operators::Op::from", oracles.OP_SPELLINGS, "operator")
-    tables.string_table(ctx, "operators::ArithmeticOp::from", oracles.ARITH_SPELLINGS, "arithmetic")
+    # (the operator tables by evaluation: written as a match, a slice lookup or an if-ladder, what counts is what they accept)
+    tables.string_table_eval(ctx, "operators::Op::from", {k: v for k, v in oracles.OP_SPELLINGS.items()}, "operator", non_words=("frobnicate", "", "=>"))
+    tables.string_table_eval(ctx, "operators::ArithmeticOp::from", oracles.ARITH_SPELLINGS, "arithmetic", non_words=("frobnicate", "", "^"))
     tables.string_table_eval(ctx, "query::OutputFormat::from", {v: [k] for k, v in oracles.OUTPUT_FORMATS.items()}, "format")
 
 
